@@ -326,12 +326,59 @@ func init() {
 		"time.Now", "time.Since", "(time.Time).Sub", "(time.Duration).Seconds", "(time.Time).UnixNano", "(time.Time).Unix", "time.Duration.String",
 		"os.IsPermission", "os.IsNotExist", "os.IsExist", "os.Getenv", "strings.Repeat", "strings.Replace", "strings.ReplaceAll", "strings.Title", "strings.Map",
 		"strings.ContainsRune", "strings.ContainsAny", "strings.ContainsFunc", "strconv.Quote", "strconv.FormatInt", "strconv.FormatUint", "strconv.FormatBool",
-		"path/filepath.Join", "path/filepath.Clean", "path/filepath.Dir", "path/filepath.Abs", "path/filepath.Rel", "path/filepath.IsAbs",
-		"path/filepath.FromSlash", "path/filepath.VolumeName", "path/filepath.Match", "path/filepath.SplitList", "path/filepath.EvalSymlinks",
-		"path.Join", "path.Clean", "path.Dir", "path.IsAbs", "path.Match", "unicode.IsSpace", "unicode.IsUpper", "unicode.IsLower", "unicode.IsPunct",
+		"path/filepath.Abs", "path/filepath.Rel", "path/filepath.FromSlash", "path/filepath.VolumeName", "path/filepath.Match", "path/filepath.SplitList", "path/filepath.EvalSymlinks",
+		"path.Match", "unicode.IsSpace", "unicode.IsUpper", "unicode.IsLower", "unicode.IsPunct",
 		"unicode.ToLower", "unicode.ToUpper", "unicode/utf8.ValidString", "unicode/utf8.RuneLen", "regexp.QuoteMeta", "runtime.GOOS"} {
 		H[n] = noop
 	}
+	H["(*archive/tar.Reader).Next"] = func(e *Engine, fc *fnCtx, st *State, c *ssa.CallCommon, a []Val, r types.Type) (Val, bool) {
+		v := e.freshVal("tarnext", r)
+		if len(v.Tuple) == 2 {
+			e.assume(st, and(implies("(= "+v.Tuple[1].T+" 0)", "(> "+v.Tuple[0].T+" 0)"), "(<= "+v.Tuple[0].T+" "+e.allocCounter(st)+")"))
+		}
+		return v, true
+	}
+	H["(*archive/tar.Header).FileInfo"] = func(e *Engine, fc *fnCtx, st *State, c *ssa.CallCommon, a []Val, r types.Type) (Val, bool) {
+		v := e.freshVal("fileinfo", r)
+		e.assume(st, "(not (= "+v.T+" 0))")
+		return v, true
+	}
+	// path algebra: Clean / Join / Dir are uninterpreted functions shared with the specification language
+	uf1 := func(name string) stdHandler {
+		return func(e *Engine, fc *fnCtx, st *State, c *ssa.CallCommon, a []Val, r types.Type) (Val, bool) {
+			e.sc.declareFun(name, []string{"String"}, "String")
+			return Val{T: e.sc.define("p", "String", "("+name+" "+a[0].T+")"), S: "String", GoT: tString}, true
+		}
+	}
+	for _, n := range []string{"path.Clean", "path/filepath.Clean"} {
+		H[n] = uf1("pathClean")
+	}
+	for _, n := range []string{"path.Dir", "path/filepath.Dir"} {
+		H[n] = uf1("pathDir")
+	}
+	joinFn := func(e *Engine, fc *fnCtx, st *State, c *ssa.CallCommon, a []Val, r types.Type) (Val, bool) {
+		elems, ok := e.varargsElems(st, c, 0, a[0])
+		if !ok || len(elems) == 0 || len(elems) > 4 {
+			return e.freshVal("joined", tString), true
+		}
+		e.sc.declareFun("pathJoin", []string{"String", "String"}, "String")
+		cur := elems[0]
+		if len(elems) == 1 {
+			e.sc.declareFun("pathClean", []string{"String"}, "String")
+			cur = "(pathClean " + cur + ")"
+		}
+		for _, x := range elems[1:] {
+			cur = "(pathJoin " + cur + " " + x + ")"
+		}
+		return Val{T: e.sc.define("p", "String", cur), S: "String", GoT: tString}, true
+	}
+	H["path.Join"] = joinFn
+	H["path/filepath.Join"] = joinFn
+	isAbs := func(e *Engine, fc *fnCtx, st *State, c *ssa.CallCommon, a []Val, r types.Type) (Val, bool) {
+		return Val{T: "(str.prefixof \"/\" " + a[0].T + ")", S: "Bool", GoT: tBool}, true
+	}
+	H["path.IsAbs"] = isAbs
+	H["path/filepath.IsAbs"] = isAbs
 	H["path/filepath.ToSlash"] = func(e *Engine, fc *fnCtx, st *State, c *ssa.CallCommon, a []Val, r types.Type) (Val, bool) {
 		e.note("filepath.ToSlash is the identity (unix path separator assumed)")
 		return a[0], true
